@@ -716,11 +716,11 @@ def install_streams(E):
         name = "%vt_" + kind
         oid = st.globals.get(name)
         if oid is None:
-            o = E.new_obj(st, 64, name="vtable(model) " + kind, zero=True, kind="global")
-            o.cells[0] = (Ptr("@vfmodel_%s_D1" % kind, 0), 8)
-            o.cells[8] = (Ptr("@vfmodel_%s_D0" % kind, 0), 8)
+            o = E.new_obj(st, 192, name="vtable(model) " + kind, zero=True, kind="global")
+            o.cells[64] = (Ptr("@vfmodel_%s_D1" % kind, 0), 8)
+            o.cells[72] = (Ptr("@vfmodel_%s_D0" % kind, 0), 8)
             st.globals[name] = oid = o.id
-        return Ptr(oid, 0)
+        return Ptr(oid, 64)
 
     def ctor(kind):
         def f(E, st, fr, ins, a):
@@ -731,8 +731,8 @@ def install_streams(E):
             kinds = dict(st.user.get("stream_kind") or {})
             kinds[key(this)] = kind
             st.user["stream_kind"] = kinds
-            if kind == "ostringstream":
-                sb = E.padd(this.off, 8)
+            if kind in ("ostringstream", "istringstream"):
+                sb = E.padd(this.off, 8 if kind == "ostringstream" else 16)
                 for off in (8, 16, 24, 32, 40, 48):
                     E.store(st, Ptr(this.obj, E.padd(sb, off)), ir.I8P, NULL)
                 E.store(st, Ptr(this.obj, E.padd(sb, 64)), ir.I32, 16)
@@ -766,11 +766,7 @@ def install_streams(E):
     def open_ctor(kind):
         def f(E, st, fr, ins, a):
             ctor(kind)(E, st, fr, ins, a)
-            name = E.cstring(st, a[1]).decode(errors="replace")
-            st.trace.append(("file.open", kind, name, a[2]))
-            files = dict(st.user.get("files") or {})
-            files[key(a[0])] = name
-            st.user["files"] = files
+            X["_ZNSt13basic_filebufIcSt11char_traitsIcEE4openEPKcSt13_Ios_Openmode"](E, st, fr, ins, [a[0], a[1], a[2]])
             return None
         return f
     X["_ZNSt14basic_ofstreamIcSt11char_traitsIcEEC1EPKcSt13_Ios_Openmode"] = open_ctor("ofstream")
@@ -885,9 +881,88 @@ def install_streams(E):
         return None
     X["_ZNKSt7__cxx1119basic_ostringstreamIcSt11char_traitsIcESaIcEE3strEv"] = oss_str
 
+    def std_string_bytes(E, st, p):
+        data = E.load(st, p, ir.I8P)
+        n = E.load(st, Ptr(p.obj, E.padd(p.off, 8)), ir.I64)
+        if is_sym(n):
+            raise S.SymOffset(bv(n, 64))
+        return read_n(E, st, data, n)
+    E.std_string_bytes = std_string_bytes
+
+    def iss_ctor_str(E, st, fr, ins, a):
+        ctor("istringstream")(E, st, fr, ins, a)
+        b = buf(st, a[0])
+        b.extend(std_string_bytes(E, st, a[1]))
+        return None
+    X["_ZNSt7__cxx1119basic_istringstreamIcSt11char_traitsIcESaIcEEC1ERKNS_12basic_stringIcS2_S3_EESt13_Ios_Openmode"] = iss_ctor_str
+    X["_ZNSt7__cxx1119basic_istringstreamIcSt11char_traitsIcESaIcEEC2ERKNS_12basic_stringIcS2_S3_EESt13_Ios_Openmode"] = iss_ctor_str
+
+    def owner_stream(st, p):
+        s = st.user.get("streams") or {}
+        best = None
+        for (o, off) in s:
+            if o == p.obj and off <= p.off and (best is None or off > best[1]):
+                best = (o, off)
+        if best is None:
+            raise EngineError("file operation on an object that is not a modelled stream")
+        return best
+
+    def vf_file(E, st, fr, ins, a):
+        files = dict(st.user.get("vfiles") or {})
+        files[E.cstring(st, a[0])] = list(E.cstring(st, a[1]))
+        st.user["vfiles"] = files
+        return None
+    X["vf_file"] = vf_file
+
+    def filebuf_open(E, st, fr, ins, a):
+        k = owner_stream(st, a[0])
+        name = E.cstring(st, a[1])
+        st.trace.append(("file.open", name.decode(errors="replace"), a[2]))
+        files = st.user.get("vfiles") or {}
+        opened = dict(st.user.get("opened") or {})
+        kinds = st.user.get("stream_kind") or {}
+        if kinds.get(k) == "ifstream":
+            if name in files:
+                b = buf(st, Ptr(k[0], k[1]))
+                del b[:]
+                b.extend(files[name])
+                opened[k] = name
+                st.user["opened"] = opened
+                return a[0]
+            return NULL
+        # output file: opening succeeds unless the harness registered the name as unwritable
+        if (st.user.get("unwritable") or {}).get(name):
+            return NULL
+        opened[k] = name
+        st.user["opened"] = opened
+        return a[0]
+    X["_ZNSt13basic_filebufIcSt11char_traitsIcEE4openEPKcSt13_Ios_Openmode"] = filebuf_open
+
+    def filebuf_close(E, st, fr, ins, a):
+        k = owner_stream(st, a[0])
+        opened = dict(st.user.get("opened") or {})
+        was = opened.pop(k, None)
+        st.user["opened"] = opened
+        st.trace.append(("file.close", (was or b"?").decode(errors="replace")))
+        return a[0] if was is not None else NULL
+    X["_ZNSt13basic_filebufIcSt11char_traitsIcEE5closeEv"] = filebuf_close
+
     def is_open(E, st, fr, ins, a):
-        return E.fresh_bv("is_open", 8) == 1
+        k = owner_stream(st, a[0])
+        return int(k in (st.user.get("opened") or {}))
     X["_ZNKSt12__basic_fileIcE7is_openEv"] = is_open
+
+    def vf_stream_content(E, st, fr, ins, a):
+        b = buf(st, a[0], create=False)
+        if b is None:
+            raise EngineError("vf_stream_content on an object that is not a modelled stream")
+        cap = a[2]
+        data = list(b)[:max(0, cap - 1)]
+        for i, x in enumerate(data + [0]):
+            E.store(st, Ptr(a[1].obj, E.padd(a[1].off, i)), ir.I8, x)
+        del b[:]
+        return len(data)
+    X["vf_stream_content"] = vf_stream_content
 
     def ios_clear(E, st, fr, ins, a):
         return None
@@ -897,6 +972,11 @@ def install_streams(E):
         return None
     X["_ZNSt8ios_base4InitC1Ev"] = ios_init
     X["_ZNSt6localeD1Ev"] = ios_init
+    X["_ZNSt9exceptionD2Ev"] = ios_init
+    X["_ZNSt13basic_filebufIcSt11char_traitsIcEED2Ev"] = ios_init
+    X["_ZNSt13basic_filebufIcSt11char_traitsIcEED1Ev"] = ios_init
+    X["_ZNSt13basic_filebufIcSt11char_traitsIcEEC1Ev"] = ios_init
+    X["_ZNSt9exceptionD1Ev"] = ios_init
     X["_ZNSt6localeC1Ev"] = ios_init
     X["_ZNSt8ios_baseD2Ev"] = ios_init
     X["_ZNSt8ios_baseC2Ev"] = ios_init
